@@ -129,6 +129,10 @@ N3=[ # neutral edits by regular expression inside one function: (file, unique an
  ("spice/spice.go","func Transfer(",r"\bamount\b","amt","rename a parameter (Transfer: amount -> amt)"),
  ("notaryserver/notary.server.go","func (s *server) Confirm(",r"\btrx\b","confirmed","rename a local (Confirm: trx -> confirmed)"),
 ]
+N5=[ # more neutral edits in the format of N (appended last so that earlier names keep their numbers)
+ ("gossip/gossip.go","	for _, member := range s {\n		if member == nil || len(member.Digest) != 32 {","	for i := 0; i < len(s); i++ {\n		member := s[i]\n		if member == nil || len(member.Digest) != 32 {","a range over the gossiper list rewritten as a counted loop (the covers clause must still recognise it)"),
+ ("gossip/gossip.go","	m := make(map[string]*protobufcompiled.Gossiper, len(s))\n","	m := make(map[string]*protobufcompiled.Gossiper, len(s))\n	if len(s) == 0 {\n		return m\n	}\n","an early return for an empty gossiper list in front of the loop"),
+]
 N4=[ # neutral renames across files: (files, regex, replacement, description)
  (["accountant/founds.go","accountant/accountant.go"],r"\bpourFunds\b","pourVertexFunds","rename a function under contract that event patterns name (pourFunds)"),
  (["accountant/storage.go","accountant/accountant.go"],r"\bsaveTrxInVertex\b","indexTransaction","rename a method under contract that event patterns name (saveTrxInVertex)"),
@@ -203,5 +207,11 @@ for j,(files,rx,repl,desc) in enumerate(N4):
     for f in files: subprocess.run(['git','-C',REPO,'checkout','--','src/'+f])
     open('/verif/selftest/neutral/'+name+'.patch','w').write(d)
     nm.append({"name":name,"what":desc,"file":files[0]})
+k=len(N)+len(N2)+len(N3)+len(N4)
+for i,e in enumerate(N5):
+    f,old,new,desc=e[:4]
+    name="neutral-%d"%(k+i+1)
+    o=mk('neutral',name,f,old,new,e[4] if len(e)>4 else None)
+    if o: nm.append({"name":name,"what":desc,"file":f})
 json.dump(nm,open('/verif/selftest/neutral/INDEX.json','w'),indent=1)
 print(len(meta),"mutants",len(nm),"neutral")
